@@ -50,16 +50,18 @@ class Check(CheckBase):
                 case['kind'] = 'all-empty'
             cases.append(case)
         # piece-boundary cases (16 MiB read piece) with a coarse chunker
-        npiece = 2 if self.tier == 'quick' else 10
-        for j in range(npiece):
+        # sizes relative to the 16 MiB read piece: (number of pieces, delta)
+        piece_sizes = [(1, 1), (1, 0), (2, 3), (1, -1)] if self.tier == 'quick' else \
+            [(1, d) for d in (-1, 0, 1, -4, 4, 3, -3, 2, 5, -5)] + [(2, 0), (2, 3), (2, -1), (3, 1)]
+        for j, (npieces, delta) in enumerate(piece_sizes):
             r = random.Random(f'C01/{self.seed}/piece/{j}')
             cases.append({
                 'seed': r.randrange(1 << 30),
-                'settings': gen.gen_settings(r, chunker=gen.COARSE_CHUNKER),
-                'shape': 'root', 'pre': 'none', 'backend': 'mem', 'concurrent': 5,
+                'settings': gen.gen_settings(r, chunker=gen.COARSE_CHUNKER if j % 2 == 0 else (500, 10000)),
+                'shape': 'root', 'pre': 'none', 'backend': 'mem', 'concurrent': [5, 1, 2, 16][j % 4],
                 'rate_limit': None, 'kind': 'piece',
-                'piece_delta': [-1, 0, 1, -4, 4, 3, -3, 2, 5, -5][j % 10],
-                'timeout': 400,
+                'piece_count': npieces, 'piece_delta': delta,
+                'timeout': 600,
             })
         return cases
 
@@ -75,6 +77,8 @@ class Check(CheckBase):
             unmet.append('fewer than 500 files compared')
         if agg['counters'].get('ref_restores', 0) < 300:
             unmet.append('fewer than 300 reference restores of file entries')
+        if not any(k.startswith('size:') and 'piece+' in k and not k.startswith('size:1piece+0') for k in agg['classes']):
+            unmet.append('no file spanning more than one 16 MiB read piece')
         return unmet
 
     # -------------------------------------------------------------------------------------------
@@ -100,10 +104,10 @@ class Check(CheckBase):
                 files.append({'rel': [f'e{i}' + nm[:40]], 'recipe': {'kind': 'zeros', 'size': 0},
                               'size_class': '0', 'name_class': ncls, 'mtime_ns': 1_500_000_000_000_000_007 + i})
         elif case['kind'] == 'piece':
-            d = case['piece_delta']
+            d, k = case['piece_delta'], case.get('piece_count', 1)
             files = [
-                {'rel': ['big'], 'recipe': {'kind': 'random', 'size': gen.PIECE + d, 'seed': case['seed']},
-                 'size_class': f'piece{d:+d}', 'name_class': 'ascii', 'mtime_ns': 1_600_000_000_000_000_001},
+                {'rel': ['big'], 'recipe': {'kind': 'random', 'size': k * gen.PIECE + d, 'seed': case['seed']},
+                 'size_class': f'{k}piece{d:+d}', 'name_class': 'ascii', 'mtime_ns': 1_600_000_000_000_000_001},
                 {'rel': ['small'], 'recipe': {'kind': 'random', 'size': 1001, 'seed': case['seed'] + 1},
                  'size_class': 'rand', 'name_class': 'ascii', 'mtime_ns': 5},
             ]
